@@ -73,6 +73,7 @@ package parse
 //@ ensures len(p.input) <= len(old(p.input))
 //@ ensures [depth_restored] p.depth == old(p.depth)
 //@ loop 1 invariant len(p.input) <= len(old(p.input)) && p.depth == old(p.depth)
+//@ loop 1 invariant values == nil || fresh(base(values))
 
 //@ func (*flagParser).parseObj
 //@ props C07
